@@ -133,6 +133,24 @@ def run(ctx):
                     msg = check_mitm_from(gd, dist, Deff, q, r, tuple(gd["central"]))
                     if msg:
                         ctx.violation("property_fails", msg, case, True)
+            # the same search on a DERIVED copy (the inverted graph of this object, a modified copy with another central state): a copy is a graph like any
+            # other - its recorded central-state hash is the hash its (shared) hasher gives, so a ball computed on it is accepted by it
+            if gd["kind"] == "perm" and len(coq_cases) % 3 == 1:
+                gd_i = dict(gd, gens=[G.inverse_perm(p_) for p_ in gd["gens"]])
+                other = list(rng.choice(sorted(dist)))
+                for cname, gcopy, gd_c in (("with_inverted_generators", graph.with_inverted_generators, gd_i),
+                                           ("modified_copy", graph.modified_copy(graph.definition.with_central_state(other)), dict(gd, central=other))):
+                    _, dist_c = G.ref_bfs(gd_c, [gd_c["central"]])
+                    ball_c = gcopy.bfs(max_diameter=D, return_all_hashes=True)
+                    Dc = len(ball_c.layer_sizes) - 1
+                    for q in [list(rng.choice(sorted(dist_c))) for _ in range(3)]:
+                        r, _ = P.res_path_lit(lambda: MeetInTheMiddle.find_path_to(gcopy, list(q), ball_c))
+                        ctx.count("mitm_on_derived_copy")
+                        msg = check_mitm_to(gd_c, dist_c, Dc, q, r, tuple(gd_c["central"]))
+                        if msg:
+                            ctx.violation("property_fails", f"on the {cname} of the graph: " + msg,
+                                          {"graph": gd_c, "config": cfgd, "depth": D, "query": q, "finder": "mitm_to", "derived": cname}, True)
+                            break
             coq_cases.append(f"(Build_path_case {G.coq_gdesc(gd, graph)} {P.inv_mats_lit(graph)} {graph.batch_size} {D}%N {clist(qlits)})")
             metas.append({"graph": gd, "config": cfgd, "depth": D, "queries": qs})
             ctx.count("directed" if not ic else "undirected")
